@@ -20,7 +20,11 @@ _OBS_NAMES = {
 
 
 def is_observer(f: FuncInfo) -> bool:
-    return f.name in _OBS_NAMES or bool(_OBS_RE.match(f.name))
+    if f.name in _OBS_NAMES:
+        return True
+    # a name of the rendering family, and the signature of a renderer: (self) or (self, ..., ctx, ...); a method that is
+    # handed tables to exchange or terms to add is not an observer whatever it is called
+    return bool(_OBS_RE.match(f.name)) and ("ctx" in f.params or "ctx" in f.kwonly or len(f.params) <= 1)
 
 
 def observers(program: Program) -> list[tuple[FuncInfo, ClassInfo | None]]:
